@@ -498,7 +498,12 @@ impl<'c, 's> Run<'c, 's> {
                 Call::Req { kind: 0, dest, a: [self.ch.choose(4) as u8, e, 0], uuid: [0; 16], entries: Vec::new() }
             }
             1 => {
-                let k = 8 + self.ch.choose(3) as usize;
+                // "more routing entries than fit (8 or more)": just over, and far over (counts that wrap a byte)
+                let k = match self.ch.choose(3) {
+                    0 => 8 + self.ch.choose(3) as usize,
+                    1 => [255usize, 256, 257, 263, 264, 512, 519][self.ch.choose(7) as usize],
+                    _ => 8 + self.ch.choose(300) as usize,
+                };
                 let mut entries = Vec::new();
                 for _ in 0..k {
                     let v = self.rand_fill(4);
@@ -809,8 +814,9 @@ impl<'c, 's> Run<'c, 's> {
 
     /// Call a real encoder on node `ni`'s persistent, dirty TX buffer.
     pub fn encode(&mut self, ni: usize, call: &Call) -> Option<Frame> {
-        let need = call.predicted_len();
         let cap = self.nodes[ni].tx.len();
+        // a documented-invalid call must be refused whatever the buffer: it needs no room
+        let need = if call.documented_invalid() { call.predicted_len().min(cap) } else { call.predicted_len() };
         if need > cap {
             self.st.probe("tx-buffer-too-small-op-skipped");
             return None;
